@@ -211,9 +211,14 @@ func runSCIONServer(ctx context.Context, log *slog.Logger, mtrcs *scionServerMet
 				continue
 			}
 			_, id, err := udp.ReadTXTimestamp(conn)
+			for err == nil && int32(id-txid) < 0 {
+				// tx timestamp of an earlier packet that arrived late, skip it
+				_, id, err = udp.ReadTXTimestamp(conn)
+			}
 			if err != nil {
 				log.LogAttrs(ctx, slog.LevelError, "failed to read packet tx timestamp",
 					slog.Any("error", err))
+				txid++
 			} else if id != txid {
 				log.LogAttrs(ctx, slog.LevelError, "failed to read packet tx timestamp",
 					slog.Uint64("id", uint64(id)), slog.Uint64("expected", uint64(txid)))
@@ -306,9 +311,14 @@ func runSCIONServer(ctx context.Context, log *slog.Logger, mtrcs *scionServerMet
 				continue
 			}
 			_, id, err := udp.ReadTXTimestamp(conn)
+			for err == nil && int32(id-txid) < 0 {
+				// tx timestamp of an earlier packet that arrived late, skip it
+				_, id, err = udp.ReadTXTimestamp(conn)
+			}
 			if err != nil {
 				log.LogAttrs(ctx, slog.LevelError, "failed to read packet tx timestamp",
 					slog.Any("error", err))
+				txid++
 			} else if id != txid {
 				log.LogAttrs(ctx, slog.LevelError, "failed to read packet tx timestamp",
 					slog.Uint64("id", uint64(id)), slog.Uint64("expected", uint64(txid)))
@@ -558,10 +568,15 @@ func runSCIONServer(ctx context.Context, log *slog.Logger, mtrcs *scionServerMet
 				continue
 			}
 			txt1, id, err := udp.ReadTXTimestamp(conn)
+			for err == nil && int32(id-txid) < 0 {
+				// tx timestamp of an earlier packet that arrived late, skip it
+				txt1, id, err = udp.ReadTXTimestamp(conn)
+			}
 			if err != nil {
 				txt1 = txt0
 				log.LogAttrs(ctx, slog.LevelError, "failed to read packet tx timestamp",
 					slog.Any("error", err))
+				txid++
 			} else if id != txid {
 				txt1 = txt0
 				log.LogAttrs(ctx, slog.LevelError, "failed to read packet tx timestamp",
